@@ -230,6 +230,28 @@ pub fn add_sections(rep: &mut Report, prop: &str, thorough: bool, conformant_onl
         });
         rep.add(sec);
     }
+    {
+        // subject: every attribute type (6 standard, serialNumber, emailAddress, domainComponent as custom OIDs) x every
+        // string kind x value shapes, alone and after another attribute: the request's subject says exactly that
+        let types = [DnTypeSpec::C, DnTypeSpec::St, DnTypeSpec::L, DnTypeSpec::O, DnTypeSpec::Ou, DnTypeSpec::Cn, DnTypeSpec::Custom(vec![2, 5, 4, 5]), DnTypeSpec::Custom(vec![1, 2, 840, 113549, 1, 9, 1]), DnTypeSpec::Custom(vec![0, 9, 2342, 19200300, 100, 1, 25])];
+        let values = ["", "D", "US", "de", "U1", "12", "USA", "a b", "x@y.z", "1.2.3.4", "example"];
+        let mut cases: Vec<DnSpec> = Vec::new();
+        for t in &types {
+            for k in ALL_STR_KINDS {
+                for v in values {
+                    cases.push(DnSpec(vec![(t.clone(), k, v.to_string())]));
+                    cases.push(DnSpec(vec![(DnTypeSpec::O, StrKind::Utf8, "first".into()), (t.clone(), k, v.to_string())]));
+                }
+            }
+        }
+        let sec = Section::new("csr/sweep/dn-type x string-kind x value-shape", "every attribute type (6 standard; serialNumber, emailAddress, domainComponent as custom OIDs) x every string kind x 11 value shapes, alone and after another attribute, as the subject of a request");
+        run::sweep_cases(&sec, &cases, &|c| format!("dn={:?}", c.0), &|c| {
+            let mut st = CertState::default();
+            st.dn = c.clone();
+            judge(prop, &known, &CsrCase { st, attrs: vec![] }, &key, &key_pub)
+        });
+        rep.add(sec);
+    }
     if prop == "C07" {
         // caller-supplied attribute values are opaque bytes: whatever their shape, they appear byte for byte
         let y = der::string(der::T_UTF8, b"y");
